@@ -1,6 +1,7 @@
 package goatlang
 
 import (
+	"bufio"
 	"errors"
 	"fmt"
 	"io"
@@ -185,9 +186,42 @@ func (v *VM) treeDump(w io.Writer, tree []*token) {
 		return
 	}
 	for _, t := range tree {
-		s := t.String()
-		s = s[3 : len(s)-1]
-		w.Write([]byte(s + "\n"))
+		if t == nil || len(t.Tokens) == 0 {
+			s := t.String()
+			s = s[3 : len(s)-1]
+			w.Write([]byte(s + "\n"))
+			continue
+		}
+		bw := bufio.NewWriter(w)
+		for i, c := range t.Tokens {
+			if i > 0 {
+				bw.WriteByte(' ')
+			}
+			writeTree(bw, c, 1)
+		}
+		bw.WriteByte('\n')
+		bw.Flush()
+	}
+}
+
+// writeTree writes what t.String() returns without building the string at every level, and stops descending where
+// the compiler stops too: a long operator chain nests as deep as it is long, and a tree is dumped before it is compiled.
+func writeTree(w *bufio.Writer, t *token, depth int) {
+	switch {
+	case t == nil:
+		w.WriteString("<nil>")
+	case len(t.Tokens) == 0:
+		w.WriteString(t.Text)
+	case depth > 4*maxDepth:
+		w.WriteString("(...)")
+	default:
+		w.WriteByte('(')
+		w.WriteString(t.Text)
+		for _, c := range t.Tokens {
+			w.WriteByte(' ')
+			writeTree(w, c, depth+1)
+		}
+		w.WriteByte(')')
 	}
 }
 
